@@ -54,6 +54,8 @@ def scenarios(tier):
     # a reloadconfig that adds two managed sockets and fails on one of them (its port is taken): whatever it did bind must
     # still be closed and unlinked by the shutdown
     out.append(Scenario('main', pre='reload-add-socks-fail', pidfile=True, E=0, nw=1, pat='obedient', w=0, gw=0, socks=1, nodet=True))
+    # a SIGHUP (reload) that is already waiting for the initial start to end when the termination signal arrives
+    out.append(Scenario('main', pre='none', pidfile=True, E=1, nw=2, pat='obedient', w=0, gw=1, socks=1, hup=True))
     if tier != 'quick':
         out.append(Scenario('main', pre='none', pidfile=True, E=2, nw=2, pat='stubborn', w=0, gw=0, socks=1))
     for pc in PIDFILE_CASES:
@@ -171,6 +173,10 @@ def run(scn, ch):
             stopped = lambda: loop.stop_requested()       # noqa: E731
             if world.terminated is None:
                 # the initial start of this incarnation
+                if scn.p.get('hup') and not state.get('hup_sent'):
+                    world.run(until=lambda w: stopped() or len(w.kernel.spawn_log) >= 1, horizon=2)
+                    state['hup_sent'] = True
+                    world.signal_daemon(int(signal.SIGHUP))
                 world.run(until=lambda w: stopped() or (w.slot() is None and not w.loop.has_ready() and
                                                         len(w.kernel.spawn_log) >= 1 and w.quiescent_main()),
                           horizon=8, menu=win.menu)
